@@ -346,12 +346,23 @@ func TestVerif_C14_PointObjectHistory(t *testing.T) {
 				A.Set(NewSM2Generator())
 			}
 			copy(scal, gen.RandBytes(r, 32)) // the same backing array is reused for every scalar
-			if gen.Int(t, "smalls", 0, 3) == 0 {
+			g := gen.RandBytes(r, 32)
+			switch gen.Pick(t, "scalars", "full", "full", "small-s", "zero-s-small-g", "small-both") {
+			case "small-s":
 				for j := 0; j < 30; j++ {
 					scal[j] = 0
 				}
+			case "zero-s-small-g":
+				for j := range scal {
+					scal[j] = 0
+				}
+				g = make([]byte, 32)
+				g[31] = byte(gen.Uniform(t, "smallg", 1, 15))
+			case "small-both":
+				for j := 0; j < 31; j++ {
+					scal[j], g[j] = 0, 0
+				}
 			}
-			g := gen.RandBytes(r, 32)
 			obj := A
 			fresh := gen.Bool(t, "fresh")
 			if fresh {
@@ -376,14 +387,77 @@ func TestVerif_C14_PointObjectHistory(t *testing.T) {
 			}
 			c14Compare(t, rec, "C14:history:"+which, which+" multiplication in a history on one point object", got, err, want,
 				fmt.Sprintf("step %d of %d, point object reused=%v, current point %x, scalar %x, g %x", i, steps, !fresh, sm2ref.Encode(cur), scal, g))
+			// the caller owns the returned point and may change it in place; that must not disturb anything else
+			if got != nil && err == nil {
+				switch gen.Pick(t, "mutate-result", "double", "add", "negate", "none") {
+				case "double":
+					got.Double(got)
+				case "add":
+					got.Add(got, NewSM2Generator())
+				case "negate":
+					got.Negate(got)
+				}
+			}
 			if !bytes.Equal(A.Bytes(), sm2ref.Encode(cur)) {
 				vt.Fail(t, rec, "C14:history:modifies-P", "the multiplication changed its point argument")
 				return
 			}
+		}
+		// after the history: the base-point machinery still works for every remainder value and a few comb windows
+		for k := 1; k <= 15; k++ {
+			kb := make([]byte, 32)
+			kb[31] = byte(k)
+			kb[20] = byte(gen.Uniform(t, "w", 0, 255))
+			got, err := ScalarBaseMult(kb)
+			c14Compare(t, rec, "C14:history:base-after", "ScalarBaseMult after a history of multiplications whose results were modified in place", got, err, sm2ref.MulBytes(kb, sm2ref.G), fmt.Sprintf("k=%x", kb))
 		}
 		rec.Case(stats.Hash(hist, sm2ref.Encode(cur), scal), true, fmt.Sprintf("steps:%d", steps))
 		if rec.WantSample("history") {
 			rec.Sample("history", map[string]interface{}{"steps": steps, "last_point": stats.Hex(sm2ref.Encode(cur))})
 		}
 	})
+}
+
+
+// Complete grid of SMALL scalars through the double-scalar routine: partial sums of the interleaved loop cancel
+// (accumulator at infinity in the middle of the computation) for many of these when P is a small negative multiple of G.
+func TestVerif_C14_MixedSmallGrid(t *testing.T) {
+	rec := stats.Get("C14", "mixed-small-grid")
+	rec.Exhaustive(true)
+	lim := 48
+	pts := []int64{-1, -2, 1}
+	if vt.Thorough() {
+		lim = 128
+		pts = []int64{-1, -2, -3, -5, 1, 2, 3}
+	}
+	rec.Rule(fmt.Sprintf("complete enumeration: ScalarMixedMult_Unsafe(g, P, s) for every g, s in 0..%d (also shifted left by 14 and 18 bits in thorough) and P = [m]G for m in %v; oracle sm2ref. Every case non-trivial (the accumulator passes through small multiples and infinity); distinct by (g,s,m).", lim-1, pts))
+	t.Cleanup(stats.FlushAll)
+	si, sn := vt.Shard()
+	idx := 0
+	shifts := []uint{0}
+	if vt.Thorough() {
+		shifts = []uint{0, 14, 18}
+	}
+	for _, m := range pts {
+		mm := new(big.Int).Mod(big.NewInt(m), sm2gen.N)
+		P := sm2ref.Mul(mm, sm2ref.G)
+		ip := c14FromRef(t, P)
+		for _, sh := range shifts {
+			for g := 0; g < lim; g++ {
+				for s := 0; s < lim; s++ {
+					idx++
+					if idx%sn != si {
+						continue
+					}
+					gv := new(big.Int).Lsh(big.NewInt(int64(g)), sh)
+					sv := big.NewInt(int64(s))
+					got, err := ScalarMixedMult_Unsafe(gen.Pad32(gv), ip, gen.Pad32(sv))
+					want := sm2ref.Add(sm2ref.Mul(gv, sm2ref.G), sm2ref.Mul(sv, P))
+					rec.Enumerated(1, fmt.Sprintf("P=[%d]G", m))
+					c14Compare(t, rec, "C14:mixed", "ScalarMixedMult_Unsafe on small scalars", got, err, want, fmt.Sprintf("g=%x s=%d P=[%d]G", gv, s, m))
+				}
+			}
+		}
+	}
+	rec.Sample("grid", map[string]interface{}{"g,s": fmt.Sprintf("0..%d", lim-1), "P": pts})
 }
